@@ -10,6 +10,8 @@ twin-encoded doubles):
                      label within rounding of start + k dt and strictly increasing in k
   H5/tcut            _parameter_memory_input_parse: tcut -> dkmax is the nearest integer (ties excluded)
 Exact-arithmetic harnesses (engine E1, symbolic ints/reals, path forking):
+  H1x/<Site>, H4x/PtTempo   step count with CONCRETE non-zero binary-exact (start, dt) and a symbolic integer target e:
+                     end = start + e*dt exactly  ->  number of steps == e (catches a dropped / mis-signed start offset)
   H2/<api>           compute_dynamics, compute_dynamics_with_field, compute_gradient_and_dynamics:
                      times vs states bookkeeping, symbolic num_steps <= 4, record_all both ways
   H2/Tempo.compute, H2/MeanFieldTempo.compute, H2/PtTebd.compute   loop + label bookkeeping with
@@ -624,6 +626,7 @@ class ComputeLoop(Case):
     assumptions = ("dt concrete and binary exact (1/4; 1/2 in the thorough tier), start_time symbolic",
                    "exact real arithmetic: end_time = start + (m+theta)*dt with 0 <= theta < 1")
     timeout_s = 60
+    max_paths = 400          # the intact code needs < 150 paths; a wrong step count explodes -> inconclusive quickly
 
     def __init__(self, kind, nmax=4, dt=Fraction(1, 4)):
         self.kind = kind
